@@ -266,7 +266,7 @@ def json_case(ctx, case, base_doc, muts, doc=None, text=None, is_base=False, tag
     verdict, nlines = real_validate(path)
     load = real_load(path) if verdict == "valid" else None
     req = {"op": "json", "doc": enc(doc), "date_ok": date_ok(doc.get("date")) if isinstance(doc, dict) else False,
-           "verdict": verdict, "nlines": nlines, "is_base": is_base, "load": load}
+           "verdict": verdict, "nlines": nlines if isinstance(doc, dict) else None, "is_base": is_base, "load": load}
     if muts:
         req["base"] = enc(base_doc)
         req["muts"] = [enc_mut(m) for m in muts]
@@ -533,7 +533,8 @@ def h5_mutations(tree, n, m):
     return out
 
 
-def h5_case(ctx, case, base_path, base_tree, muts, n, m, is_base=False, tags=(), with_exit=False):
+def h5_case(ctx, case, base_path, base_tree, muts, n, m, is_base=False, tags=(), with_exit=False,
+            written_from=None):
     path = os.path.join(TMP, F_CASE_H5)
     shutil.copyfile(base_path, path)
     for mu in muts:
@@ -544,6 +545,8 @@ def h5_case(ctx, case, base_path, base_tree, muts, n, m, is_base=False, tags=(),
     if muts:
         req["base"] = base_tree
         req["muts"] = muts
+    if written_from is not None:
+        req["written_from"] = {"obs": written_from["obs"], "samp": written_from["samp"]}
     r = ctx.driver.ask(req)
     classes = [h5_class(mu, n, m) for mu in muts]
     if len(muts) <= 1:
@@ -571,6 +574,73 @@ def write_h5(spec, route, path, compress=True):
     t = core.build(spec, route)
     with h5py.File(path, "w") as f:
         t.to_hdf5(f, "c15-harness", compress=compress)
+
+
+# ----------------------------------------------------------------------------- written files
+# text that needs escaping / decoding somewhere between the table and the file: quotes, backslashes
+# (incl. sequences that look like JSON escapes), control characters, non-ASCII
+HARD_IDS = ['d"q', 'dir\\name', 'back\\sl', 'ta\tb', 'nl\nx', '"', '\\', 'bell\x07', "q'q", '\u00e91', '\u65e5\u672c',
+            'x/y', 'a b', '\\u0041', 'tr\\', '{"id": 1}', '\u00b5', 'a,b', '[', ' lead']
+
+
+def hard_id_spec(rng, mode, classes, max_n=5, max_m=5):
+    """a table whose IDs carry the hard characters on the chosen axis/axes (mode: obs | samp | both)"""
+    spec = gen_base_spec(rng, classes, max_n=max_n, max_m=max_m, min_n=2, min_m=2)
+
+    def harden(ids, prefix):
+        pool = list(HARD_IDS)
+        rng.shuffle(pool)
+        out = [prefix + x if rng.random() < 0.5 else x + prefix for x in pool[:len(ids)]]
+        # keep one plain id now and then
+        if len(out) > 2 and rng.random() < 0.5:
+            out[rng.randrange(len(out))] = ids[0]
+        return out
+    if mode in ("obs", "both"):
+        spec["obs"] = harden(spec["obs"], "O")
+    else:
+        spec["obs"] = ["O%d" % i for i in range(len(spec["obs"]))]
+    if mode in ("samp", "both"):
+        spec["samp"] = harden(spec["samp"], "S")
+    else:
+        spec["samp"] = ["S%d" % i for i in range(len(spec["samp"]))]
+    return spec
+
+
+def written_json_case(ctx, spec, route, with_exit=False, tags=()):
+    """write with the real to_json; a writer exception or text that is not JSON is a file the library
+    wrote that cannot be reported valid"""
+    case = {"fmt": "json", "spec": spec, "route": route, "muts": []}
+    ctx.case({"fmt": "json", "spec": core.spec_obs(spec), "route": route}, nontrivial=True)
+    try:
+        text = written_json(spec, route)
+    except Exception as e:
+        ctx.count("json:written->writer-raised")
+        ctx.fail(case, "written_valid", tuple(tags) + ("json", "writer-raised:%s" % type(e).__name__))
+        return
+    try:
+        doc = json.loads(text)
+        if not isinstance(doc, dict):
+            doc = None
+    except ValueError:
+        doc = None
+    if doc is None:
+        tags = tuple(tags) + ("unparsable-text",)
+    json_case(ctx, case, doc, [], doc=doc, text=text, is_base=True, with_exit=with_exit, written_from=spec,
+              tags=tags)
+
+
+def written_h5_case(ctx, spec, route, compress, base_path, with_exit=False, tags=()):
+    case = {"fmt": "hdf5", "spec": spec, "route": route, "muts": [], "compress": compress}
+    ctx.case({"fmt": "hdf5", "spec": core.spec_obs(spec), "route": route, "c": int(compress)}, nontrivial=True)
+    try:
+        write_h5(spec, route, base_path, compress=compress)
+        tree, _ = observe_h5(base_path)
+    except Exception as e:
+        ctx.count("hdf5:written->writer-raised")
+        ctx.fail(case, "written_valid", tuple(tags) + ("hdf5", "writer-raised:%s" % type(e).__name__))
+        return
+    h5_case(ctx, case, base_path, tree, [], len(spec["obs"]), len(spec["samp"]), is_base=True,
+            with_exit=with_exit, written_from=spec, tags=tags)
 
 
 # ----------------------------------------------------------------------------- specs
@@ -672,10 +742,14 @@ def _run(ctx):
     for i in range(n_written):
         spec = gen_base_spec(rng, core.VALUE_CLASSES if i % 2 else exact, max_n=6, max_m=6)
         route = rng.choice(core.ROUTES)
-        text = written_json(spec, route)
-        case = {"fmt": "json", "spec": spec, "route": route, "muts": []}
-        ctx.case({"fmt": "json", "spec": core.spec_obs(spec), "route": route}, nontrivial=True)
-        json_case(ctx, case, json.loads(text), [], text=text, is_base=True, with_exit=(i < 10), written_from=spec)
+        written_json_case(ctx, spec, route, with_exit=(i < 10))
+    # IDs that need escaping, on each axis independently and on both
+    n_hard = 36 if quick else 600
+    for i in range(n_hard):
+        mode = ("samp", "obs", "both")[i % 3]
+        spec = hard_id_spec(rng, mode, exact)
+        written_json_case(ctx, spec, rng.choice(core.ROUTES), with_exit=(i < 6), tags=("hard-ids:%s" % mode,))
+        ctx.count("json:hard-ids:%s" % mode)
 
     # ---- JSON fault enumeration
     n_bases = 5 if quick else 12
@@ -729,12 +803,14 @@ def _run(ctx):
     for i in range(n_hw):
         spec = gen_base_spec(rng, core.VALUE_CLASSES, max_n=6, max_m=6)
         route = rng.choice(core.ROUTES)
-        write_h5(spec, route, base_path, compress=bool(i % 2))
-        tree, _ = observe_h5(base_path)
-        case = {"fmt": "hdf5", "spec": spec, "route": route, "muts": [], "compress": bool(i % 2)}
-        ctx.case({"fmt": "hdf5", "spec": core.spec_obs(spec), "route": route, "c": i % 2}, nontrivial=True)
-        h5_case(ctx, case, base_path, tree, [], len(spec["obs"]), len(spec["samp"]), is_base=True,
-                with_exit=(i < 5))
+        written_h5_case(ctx, spec, route, bool(i % 2), base_path, with_exit=(i < 5))
+    n_hhard = 18 if quick else 300
+    for i in range(n_hhard):
+        mode = ("samp", "obs", "both")[i % 3]
+        spec = hard_id_spec(rng, mode, exact)
+        written_h5_case(ctx, spec, rng.choice(core.ROUTES), bool(i % 2), base_path, with_exit=(i < 3),
+                        tags=("hard-ids:%s" % mode,))
+        ctx.count("hdf5:hard-ids:%s" % mode)
     n_hb = 3 if quick else 6
     n_hdouble = 250 if quick else None
     hbases = []
